@@ -179,7 +179,9 @@ def run_case(rec: Recorder, spec: Spec, dmg: Damage, wire_bytes: bytes, pname: s
             if pname == "preload":
                 _ = resp.data
             else:
-                pieces, exc, problem = respgen.run_ops(resp, ops, spec.decode)
+                # the caller stops at the first empty result, as `while chunk := resp.read(n)` does: an end of
+                # body reported once is an end of body, whatever a further call would have raised
+                pieces, exc, problem = respgen.run_ops(resp, ops, spec.decode, eof_at_first_empty=True)
         except BaseException as e:  # noqa: BLE001
             if isinstance(e, (KeyboardInterrupt, SystemExit)):
                 raise
